@@ -141,6 +141,23 @@ std::variant<StreamErrorElement, QXmppError> StreamErrorElement::fromDom(const Q
 }
 /// \endcond
 
+// Returns the number of bytes at the end of \a data that start a multi-byte
+// UTF-8 sequence of which the remaining bytes have not been received yet.
+static int incompleteUtf8SuffixLength(const QByteArray &data)
+{
+    const auto size = data.size();
+    for (int i = 1; i <= 3 && i <= size; ++i) {
+        const auto byte = uchar(data.at(size - i));
+        if ((byte & 0xC0) == 0x80) {
+            // continuation byte: the lead byte is further to the front
+            continue;
+        }
+        const int sequenceLength = byte >= 0xF0 ? 4 : (byte >= 0xE0 ? 3 : (byte >= 0xC0 ? 2 : 1));
+        return sequenceLength > i ? i : 0;
+    }
+    return 0;
+}
+
 XmppSocket::XmppSocket(QObject *parent)
     : QXmppLoggable(parent)
 {
@@ -160,6 +177,7 @@ void XmppSocket::setSocket(QSslSocket *socket)
 
         // do not emit started() with direct TLS (this happens in encrypted())
         if (!m_directTls) {
+            m_undecodedData.clear();
             m_dataBuffer.clear();
             m_streamOpenElement.clear();
             Q_EMIT started();
@@ -168,6 +186,7 @@ void XmppSocket::setSocket(QSslSocket *socket)
     QObject::connect(socket, &QSslSocket::encrypted, this, [this]() {
         debug(u"Socket encrypted"_s);
         // this happens with direct TLS or STARTTLS
+        m_undecodedData.clear();
         m_dataBuffer.clear();
         m_streamOpenElement.clear();
         Q_EMIT started();
@@ -176,7 +195,16 @@ void XmppSocket::setSocket(QSslSocket *socket)
         warning(u"Socket error: "_s + m_socket->errorString());
     });
     QObject::connect(socket, &QSslSocket::readyRead, this, [this]() {
-        processData(QString::fromUtf8(m_socket->readAll()));
+        // The transport may split the stream anywhere, also in the middle of a
+        // multi-byte UTF-8 sequence: decode only complete sequences and keep an
+        // incomplete one until the remaining bytes have arrived.
+        m_undecodedData.append(m_socket->readAll());
+        const auto incomplete = incompleteUtf8SuffixLength(m_undecodedData);
+        const auto text = QString::fromUtf8(m_undecodedData.constData(), m_undecodedData.size() - incomplete);
+        m_undecodedData = m_undecodedData.right(incomplete);
+        if (!text.isEmpty()) {
+            processData(text);
+        }
     });
 }
 
